@@ -12,6 +12,12 @@ CLAIMED = {
          "Every run feeds 1..5 real frames (one of them possibly altered by a byzantine peer) to the real stream decoder through every single split point (small streams) or sampled+boundary split points and multi-way splits; oracles: identical outputs for every chunking and equal to the canonical re-encoding, largest single allocation per decode call <= 2 x bytes received + 64 KiB, a complete frame never reported as incomplete. Fault kinds are enumerated (each lying-length value, each alteration kind, each varint width) and the schedule (split points) is enumerated for small streams, sampled for large ones.",
          "Trusted: the harness' own frame encoder (60 lines), the counting allocator, rustc. Not covered: the Noise transport that hands bytes to Wire, memory used by the inbox buffer itself (bounded by MAX_INBOX_SIZE by construction).",
          "DESIGN.md section 5 C14, section 4.D"),
+ "C10": ("exploration", "deterministic simulation: seeded discrete-event scheduler over real Service instances + SQLite stores + real frame codec, byzantine puppets, fault injection (drops, partitions, crash/restart, clock steps, worker failures, reordering, fragmentation), step oracles on ground truth, replay + segment-wise delta-debugging", "Every foreign announcement a real node emits or stores is checked against the simulator's ground truth of what was delivered to it, by whom and when: delivered before, signature verifies (checked with the crypto primitive), not more than 1 h ahead of the node's clock at some delivery, announcer known at some delivery, per (announcer, kind, repo) timestamps never go back or repeat with different content, never sent to its announcer or to a peer that delivered it (outside subscription replays). Puppets forge, replay, re-sign and boundary-time announcements; several relayers deliver the same one; nodes crash and restart.", "Trusted/stubbed: wire::Wire is replaced by a model of its rules (DESIGN 4.A), so a change inside Wire, the reactor, Noise or the worker pool is invisible; MockStorage stands in for radicle::Storage; connection-conflict resolution is not modelled. Sampling, not enumeration: a clean batch is evidence, not proof.", "DESIGN.md section 5 C10"),
+ "C11": ("exploration", "deterministic simulation: seeded discrete-event scheduler over real Service instances + SQLite stores + real frame codec, byzantine puppets, fault injection (drops, partitions, crash/restart, clock steps, worker failures, reordering, fragmentation), step oracles on ground truth, replay + segment-wise delta-debugging", "After every event, every refs announcement a real node writes to a peer is checked against the visibility (delegates + allow list) of the repository in that node's own storage, whatever triggered the write (own announcement, relay, gossip tick, subscription replay, initial messages), and every inventory announcement it signs against the private repositories it holds. Private repositories with random allow lists, subscriptions before and after the announcement, restarts.", "Trusted/stubbed: wire::Wire is replaced by a model of its rules (DESIGN 4.A), so a change inside Wire, the reactor, Noise or the worker pool is invisible; MockStorage stands in for radicle::Storage; connection-conflict resolution is not modelled. Sampling, not enumeration: a clean batch is evidence, not proof. The initialize() pre-load path for private repositories needs real storage (synced_at) and is not exercised by MockStorage. Operator contract assumed: AddInventory is only issued for public repositories (as rad init/seed/publish do).", "DESIGN.md section 5 C11"),
+ "C13": ("exploration", "deterministic simulation: seeded discrete-event scheduler over real Service instances + SQLite stores + real frame codec, byzantine puppets, fault injection (drops, partitions, crash/restart, clock steps, worker failures, reordering, fragmentation), step oracles on ground truth, replay + segment-wise delta-debugging", "Every call into a real node (message delivery in arbitrary fragments, connect/disconnect, wake, worker result, command) runs under catch_unwind on the shipped build profile; a panic or abort is a violation classed by its source site. Puppets send boundary-valued well-formed messages (timestamp 0/1/MAX, since>until, ping sizes, huge inventories), control frames with arbitrary stream ids, bit-flipped, truncated and garbage frames and lying length prefixes, in every connection state.", "Trusted/stubbed: wire::Wire is replaced by a model of its rules (DESIGN 4.A), so a change inside Wire, the reactor, Noise or the worker pool is invisible; MockStorage stands in for radicle::Storage; connection-conflict resolution is not modelled. Sampling, not enumeration: a clean batch is evidence, not proof. The git request-header half of the property (pkt-line parsing) is not covered by this check.", "DESIGN.md section 5 C13"),
+ "C15": ("exploration", "deterministic simulation: seeded discrete-event scheduler over real Service instances + SQLite stores + real frame codec, byzantine puppets, fault injection (drops, partitions, crash/restart, clock steps, worker failures, reordering, fragmentation), step oracles on ground truth, replay + segment-wise delta-debugging", "Every message a real node emits (initial messages, relays, replies, pings at random sizes, inventories up to the limit) is encoded, checked against the 64 KiB limit, decoded by the real decoder and compared for equality, under workloads driven by the simulated peers. Only the first sentence of the property is decided here; the unique-encoding sentence is a pure codec statement and is only sampled through byzantine byte flips (see level_note).", "Trusted/stubbed: wire::Wire is replaced by a model of its rules (DESIGN 4.A), so a change inside Wire, the reactor, Noise or the worker pool is invisible; MockStorage stands in for radicle::Storage; connection-conflict resolution is not modelled. Sampling, not enumeration: a clean batch is evidence, not proof. The second sentence of C15 (any decodable bytes re-encode identically) is not claimed.", "DESIGN.md section 5 C15"),
+ "C16": ("exploration", "deterministic simulation: seeded discrete-event scheduler over real Service instances + SQLite stores + real frame codec, byzantine puppets, fault injection (drops, partitions, crash/restart, clock steps, worker failures, reordering, fragmentation), step oracles on ground truth, replay + segment-wise delta-debugging", "SimWorker keeps ground truth of every fetch task (which Io::Fetch created it, on which connection epoch, whether it still runs) and of which task is the service's current fetch per repository. Step oracles: no Io::Fetch for a repository while another task for it runs on a live connection, per-peer concurrency and queue capacity respected, a delivered worker result only retires the fetch it belongs to, operators waiting on a fetch receive that fetch's result, no panic. Schedules favour disconnect/reconnect between a fetch start and its (late) result.", "Trusted/stubbed: wire::Wire is replaced by a model of its rules (DESIGN 4.A), so a change inside Wire, the reactor, Noise or the worker pool is invisible; MockStorage stands in for radicle::Storage; connection-conflict resolution is not modelled. Sampling, not enumeration: a clean batch is evidence, not proof.", "DESIGN.md section 5 C16"),
+ "C29": ("exploration", "deterministic simulation: seeded discrete-event scheduler over real Service instances + SQLite stores + real frame codec, byzantine puppets, fault injection (drops, partitions, crash/restart, clock steps, worker failures, reordering, fragmentation), step oracles on ground truth, replay + segment-wise delta-debugging", "Every announcement signed by a real node that appears in any write or in its gossip store is collected per run of the node (between restarts), de-duplicated by bytes; oracle: no two distinct ones share a timestamp and per (kind, repository) timestamps increase in order of first appearance, while the node's clock is stalled, stepped backwards and jumped forwards.", "Trusted/stubbed: wire::Wire is replaced by a model of its rules (DESIGN 4.A), so a change inside Wire, the reactor, Noise or the worker pool is invisible; MockStorage stands in for radicle::Storage; connection-conflict resolution is not modelled. Sampling, not enumeration: a clean batch is evidence, not proof.", "DESIGN.md section 5 C29"),
 }
 
 NA = {
